@@ -73,6 +73,15 @@ def streams(ab: int, maxcmds: int, rng: random.Random, cap: int) -> List[List[in
         rest = out[len(keep):]
         keep += rng.sample(rest, cap - len(keep))
         out = keep
+    # rectangle geometry sweep: every x, y in 0..2 and rw, rh in 0..3 on a 2x2 and a 3x2 screen
+    dw = 16 * ab
+    for (sw, sh) in ((2, 2), (3, 2)):
+        init = [1] + u16(sw) + u16(sh) + [8] + u16(1)
+        for x in range(3):
+            for y in range(3):
+                for rw in range(4):
+                    for rh in range(4):
+                        out.append(init + [4] + u16(x) + u16(y) + u16(rw) + u16(rh) + list((dw * ((x + y) % 3)).to_bytes(ab, "little")))
     uniq = sorted({tuple(s) for s in out})
     return [list(s) for s in uniq]
 
